@@ -82,16 +82,26 @@ ConstOK(u, e, pr) ==
   ELSE IF "signal_name" \in DOMAIN pr THEN bag = Single(u, pr.signal_name, Get(pr, "value", 0))
   ELSE bag = ZeroBagT[u]
 
+\* a static boolean property planned for a user-placed entity (recorded by the harness as userprops: name -> 0 / 1) is in the text with
+\* that truth value (top level or control_behavior), or is left out exactly when it is the game's default
+TextProp(e, k) == IF k \in DOMAIN e THEN <<e[k]>> ELSE IF k \in DOMAIN Get(e, "control_behavior", <<>>) THEN <<e.control_behavior[k]>> ELSE <<>>
+UserPropsOK(u, i, pl) ==
+  \A k \in DOMAIN Get(pl, "userprops", <<>>) \cap DOMAIN PropDefaults :
+     LET want == pl.userprops[k] # 0  got == TextProp(Ents(u)[i], k) IN
+     IF got = <<>> THEN want = PropDefaults[k] ELSE got[1] = want
 EntityOK(p, i) ==
   LET u == U(p)  pl == PL(p)[i]  pr == pl.props IN
   IF i > Len(Ents(u)) THEN Fail(p, "C07_missing_entity", [index |-> i, id |-> pl.id])
   ELSE /\ (Ents(u)[i].name = pl.type \/ Fail(p, "C07_entity_kind", [index |-> i, id |-> pl.id, planned |-> pl.type, decoded |-> Ents(u)[i].name]))
        /\ (Ents(u)[i].name # pl.type \/
-            CASE pl.type = "arithmetic-combinator" -> ArithOK(u, i, pr) \/ Fail(p, "C07_arithmetic", [id |-> pl.id, planned |-> ExpArith(pr), decoded |-> NAT[u][i]])
+            \* (a combinator the USER placed and left unconfigured carries no planned operation: only kind and properties are compared)
+            CASE Get(pl, "plain", FALSE) -> UserPropsOK(u, i, pl) \/ Fail(p, "C07_user_property", [id |-> pl.id, planned |-> pl.userprops, decoded |-> Ents(u)[i]])
+              [] pl.type = "arithmetic-combinator" -> ArithOK(u, i, pr) \/ Fail(p, "C07_arithmetic", [id |-> pl.id, planned |-> ExpArith(pr), decoded |-> NAT[u][i]])
               [] pl.type = "decider-combinator" -> DeciderOK(u, i, pr) \/ Fail(p, "C07_decider", [id |-> pl.id, planned |-> ExpRows(pr), decoded |-> NDT[u][i]])
               [] pl.type = "constant-combinator" -> ConstOK(u, i, pr) \/ Fail(p, "C07_constant", [id |-> pl.id, decoded |-> NCT[u][i]])
-              [] OTHER -> (("property_writes" \notin DOMAIN pr \/ "enable" \notin DOMAIN pr.property_writes) \/ NCondT[u][i] # <<>>)
-                          \/ Fail(p, "C07_condition", [id |-> pl.id, why |-> "enable planned, no circuit condition in the text"]))
+              [] OTHER -> /\ (UserPropsOK(u, i, pl) \/ Fail(p, "C07_user_property", [id |-> pl.id, planned |-> pl.userprops, decoded |-> Ents(u)[i]]))
+                          /\ ((("property_writes" \notin DOMAIN pr \/ "enable" \notin DOMAIN pr.property_writes) \/ NCondT[u][i] # <<>>)
+                               \/ Fail(p, "C07_condition", [id |-> pl.id, why |-> "enable planned, no circuit condition in the text"])))
 
 \* wires: every planned wire, as an unordered pair of <<entity index, connector>>, and nothing else on circuit connectors
 Idx(p, id) == CHOOSE i \in DOMAIN PL(p) : PL(p)[i].id = id
